@@ -335,3 +335,30 @@ Definition exit_code (f : flags) (check : bool) : N :=
 (* bin/main.rs:323 (format_string: input from stdin) *)
 Definition exit_code_stdin (f : flags) : N :=
   if has_operational_errors f || has_parsing_errors f then 1 else 0.
+
+(* ---------------------------------------------------------------------------------------------
+   visitor.rs push_skipped_with_span: the range of OUTPUT lines recorded for a skip-marked item (it is what
+   is_skipped_line consults).  Lines are 1-based.
+     src_start : source line on which the item starts (its first attribute)
+     attrs_end : source line on which its last attribute ends
+     first_line: source line on which the item proper starts
+     body_nl   : number of newlines inside the item's text, first attribute to last token (the text is pushed
+                 verbatim, so the output has as many)
+     out_before: the visitor's line_number (newlines in the buffer) when the item is about to be pushed, i.e. the
+                 item starts on output line out_before + 1
+       let lo = min(attrs_end + 1, first_line);                       // a SOURCE line
+       let lo = (lo + out_start).saturating_sub(src_start);           // since the repair: the OUTPUT line
+       self.push_rewrite_inner(item_span, None);
+       let hi = self.line_number + 1;                                 // an OUTPUT line *)
+Record skip_site : Type := MkSite { src_start : N; attrs_end : N; first_line : N; body_nl : N; out_before : N }.
+Definition site_lo_src (s : skip_site) : N := N.min (attrs_end s + 1) (first_line s).
+Definition range_pre_repair (s : skip_site) : N * N := (site_lo_src s, out_before s + body_nl s + 1).
+Definition range_recorded (s : skip_site) : N * N :=
+  (site_lo_src s + (out_before s + 1) - src_start s, out_before s + body_nl s + 1).
+(* where the source line k of the item stands in the output *)
+Definition out_line_of (s : skip_site) (k : N) : N := out_before s + 1 + (k - src_start s).
+(* the attributes come first, the item proper after them, everything inside the item's text *)
+Definition site_ok (s : skip_site) : Prop :=
+  src_start s <= attrs_end s /\ attrs_end s <= first_line s /\ first_line s <= src_start s + body_nl s /\ 1 <= src_start s.
+Definition site_okb (s : skip_site) : bool :=
+  (src_start s <=? attrs_end s) && (attrs_end s <=? first_line s) && (first_line s <=? src_start s + body_nl s) && (1 <=? src_start s).
